@@ -306,7 +306,7 @@ Step(e) ==
     [] OTHER -> s
 
 ZeroCnt == [resets |-> 0, ins |-> 0, gos |-> 0, bestmoves |-> 0, infos |-> 0, readyoks |-> 0, exits |-> 0, slices |-> 0,
-            posdumps |-> 0, terminal_gos |-> 0, probes |-> 0, hook_events |-> 0, hook_recvs |-> 0, foreign_lines |-> 0]
+            posdumps |-> 0, formula_same |-> 0, formula_other |-> 0, terminal_gos |-> 0, probes |-> 0, hook_events |-> 0, hook_recvs |-> 0, foreign_lines |-> 0]
 Count(c, e) ==
   CASE e.ev = "reset" -> [c EXCEPT !.resets = @ + 1]
     [] e.ev = "in" -> [c EXCEPT !.ins = @ + 1, !.gos = @ + (IF Has(e, "go") THEN 1 ELSE 0),
@@ -316,7 +316,10 @@ Count(c, e) ==
                                  !.foreign_lines = @ + (IF e.k = "info" /\ Foreign(e) THEN 1 ELSE 0),
                                  !.readyoks = @ + (IF e.k = "readyok" THEN 1 ELSE 0)]
     [] e.ev = "exit" -> [c EXCEPT !.exits = @ + 1]
-    [] e.ev = "slice" -> [c EXCEPT !.slices = @ + 1]
+    [] e.ev = "slice" -> LET tc == ParseGo(e.toks)
+                             sw == IF CodeSliceOf(tc.wtime, tc.winc, Mtg(tc), "fixed") = e.slice_w THEN 1 ELSE 0
+                             sb == IF CodeSliceOf(tc.btime, tc.binc, Mtg(tc), "fixed") = e.slice_b THEN 1 ELSE 0 IN
+                         [c EXCEPT !.slices = @ + 1, !.formula_same = @ + sw + sb, !.formula_other = @ + 2 - sw - sb]
     [] e.ev = "posdump" -> [c EXCEPT !.posdumps = @ + 1]
     [] e.ev = "hk" -> [c EXCEPT !.hook_events = @ + 1, !.hook_recvs = @ + (IF e.h = "io_recv" THEN 1 ELSE 0)]
     [] OTHER -> c
